@@ -89,13 +89,19 @@ private theorem fx5 : Config.fixed.extraArgRequired = true := rfl
 private theorem fx6 : Config.fixed.subscriptionChecked = true := rfl
 private theorem fx7 : Config.fixed.ifaceResolverChecked = false := rfl
 private theorem fx8 : Config.fixed.notCallableReported = true := rfl
+private theorem fx9 : Config.fixed.defaultsChecked = true := rfl
+private theorem fx10 : Config.fixed.enumNoneReported = true := rfl
 
 private theorem validate_eq' (s : SchemaD) (rv : Bool) : validate s rv = validateFixed s rv := by
   unfold validate; rw [config_fixed]
 
-private theorem mem_notInputErr (s : SchemaD) (r : Rule) (o : String) (a : ArgD) (e : Err) :
-    e ∈ notInputErr s r o a ↔ isInputType s a.type = false ∧ e = ⟨r, [a.name, o, a.type.render]⟩ := by
-  unfold notInputErr; cases isInputType s a.type <;> simp
+private theorem mem_notInputErr (s : SchemaD) (r d : Rule) (o : String) (a : ArgD) (e : Err) :
+    e ∈ notInputErr Config.fixed s r d o a ↔
+      (isInputType s a.type = false ∧ e = ⟨r, [a.name, o, a.type.render]⟩) ∨
+      (isInputType s a.type = true ∧ a.hasDefault = true ∧ defaultBad s defaultFuel a.type a.default = true ∧
+        e = ⟨d, [a.name, o]⟩) := by
+  unfold notInputErr defaultErr
+  cases isInputType s a.type <;> cases a.hasDefault <;> cases defaultBad s defaultFuel a.type a.default <;> simp [fx9]
 
 private theorem any_key_bool {α} (key : α → String) (pre : List α) (k : String) :
     (pre.any (fun y => true && key y == k) = true) ↔ k ∈ pre.map key := any_key_iff key pre k
@@ -112,8 +118,8 @@ private theorem mem_step {α} (key : α → String) (pre : List α) (x : α) (na
     have : key x ∉ pre.map key := fun hm => by rw [(any_key_iff key pre (key x)).2 hm] at hd; exact absurd hd (by simp)
     simp [this]
 
-private theorem mem_validateArguments (s : SchemaD) (r1 r2 : Rule) (owner : String) (args : List ArgD) (e : Err) :
-    e ∈ validateArguments s r1 r2 owner args ↔ ArgViol s r1 r2 owner args e := by
+private theorem mem_validateArguments (s : SchemaD) (r1 r2 r3 : Rule) (owner : String) (args : List ArgD) (e : Err) :
+    e ∈ validateArguments s r1 r2 r3 owner args ↔ ArgViol s r1 r2 r3 owner args e := by
   unfold validateArguments validateArgumentsWith
   rw [mem_forSeen (·.name) _ (fun _ => true) (fun _ _ _ => rfl) (fun _ _ => rfl) e args []]
   simp only [fx2, Bool.and_false, Bool.false_eq_true, if_false]
@@ -122,12 +128,15 @@ private theorem mem_validateArguments (s : SchemaD) (r1 r2 : Rule) (owner : Stri
     rcases (mem_step (·.name) pre a _ _ _ e).1 h with h | ⟨hm, h⟩ | h
     · obtain ⟨hn, rfl⟩ := (mem_checkValidName _ _).1 h; exact .name hat hn
     · simp only [List.mem_singleton] at h; subst h; exact .dup hat hm
-    · obtain ⟨hi, rfl⟩ := (mem_notInputErr _ _ _ _ _).1 h; exact .notInput hat hi
+    · rcases (mem_notInputErr _ _ _ _ _ _).1 h with ⟨hi, rfl⟩ | ⟨hi, hd, hb, rfl⟩
+      · exact .notInput hat hi
+      · exact .badDefault hat hi hd hb
   · intro h
     cases h with
     | @name pre a hat hn => exact ⟨pre, a, hat, (mem_step (·.name) pre a _ _ _ _).2 (Or.inl ((mem_checkValidName _ _).2 ⟨hn, rfl⟩))⟩
     | @dup pre a hat hm => exact ⟨pre, a, hat, (mem_step (·.name) pre a _ _ _ _).2 (Or.inr (Or.inl ⟨hm, List.mem_singleton.2 rfl⟩))⟩
-    | @notInput pre a hat hi => exact ⟨pre, a, hat, (mem_step (·.name) pre a _ _ _ _).2 (Or.inr (Or.inr ((mem_notInputErr _ _ _ _ _).2 ⟨hi, rfl⟩)))⟩
+    | @notInput pre a hat hi => exact ⟨pre, a, hat, (mem_step (·.name) pre a _ _ _ _).2 (Or.inr (Or.inr ((mem_notInputErr _ _ _ _ _ _).2 (Or.inl ⟨hi, rfl⟩))))⟩
+    | @badDefault pre a hat hi hd hb => exact ⟨pre, a, hat, (mem_step (·.name) pre a _ _ _ _).2 (Or.inr (Or.inr ((mem_notInputErr _ _ _ _ _ _).2 (Or.inr ⟨hi, hd, hb, rfl⟩))))⟩
 
 private theorem mem_resolverArgErr (path : String) (ps : List ParamD) (varKw : Bool) (a : ArgD) (e : Err) :
     e ∈ resolverArgErr path ps varKw a ↔
@@ -223,11 +232,11 @@ private theorem mem_resolversOfField (s : SchemaD) (rv : Bool) (t : TypeD) (f : 
 private theorem mem_fieldBody (s : SchemaD) (rv : Bool) (t : TypeD) (f : FieldD) (e : Err) :
     e ∈ fieldBody s rv t f ↔
       (isOutputType s f.type = false ∧ e = ⟨.fieldNotOutput, [f.name, t.name, f.type.render]⟩) ∨
-      ArgViol s .dupArg .argNotInput (t.name ++ "." ++ f.name) f.args e ∨
+      ArgViol s .dupArg .argNotInput .argDefault (t.name ++ "." ++ f.name) f.args e ∨
       (t.kind = .object ∧ ∃ r, (pickResolver s t f = some r ∨ f.subscriptionResolver = some r) ∧ rv = true ∧
         ((r.callable = false ∧ e = ⟨.resNotCallable, [t.name ++ "." ++ f.name]⟩) ∨
          (r.callable = true ∧ r.inspectable = true ∧ ResolverViol (t.name ++ "." ++ f.name) f.args r e))) := by
-  have ha := mem_validateArguments s .dupArg .argNotInput (t.name ++ "." ++ f.name) f.args e
+  have ha := mem_validateArguments s .dupArg .argNotInput .argDefault (t.name ++ "." ++ f.name) f.args e
   unfold validateArguments at ha
   unfold fieldBody fieldBodyWith
   simp only [List.mem_append, ha, fx7, Bool.or_false, or_assoc]
@@ -482,18 +491,22 @@ private theorem mem_validateUnionMembers (s : SchemaD) (t : TypeD) (e : Err) :
         if_true, List.mem_singleton]
 
 private theorem mem_validateEnumValues (t : TypeD) (e : Err) : e ∈ validateEnumValues t ↔ EnumViol t e := by
-  unfold validateEnumValues
-  simp only [List.mem_append, List.mem_flatMap, mem_checkValidName]
+  unfold validateEnumValues validateEnumValuesWith
+  simp only [List.mem_append, List.mem_flatMap, mem_checkValidName, fx10, Bool.true_and]
   constructor
-  · rintro (h | ⟨v, hv, hn, rfl⟩)
+  · rintro (h | ⟨v, hv, ⟨hn, rfl⟩ | h⟩)
     · cases hm : t.values with
       | nil => rw [hm] at h; simp only [List.isEmpty_nil, if_true, List.mem_singleton] at h; subst h; exact .empty hm
       | cons a as => rw [hm] at h; simp at h
     · exact .name hv hn
+    · cases hb : isNone v.value with
+      | false => rw [hb] at h; simp at h
+      | true => rw [hb] at h; simp only [if_true, List.mem_singleton] at h; subst h; exact .noneValue hv hb
   · intro h
     cases h with
     | empty hm => exact Or.inl (by simp [hm])
-    | @name v hv hn => exact Or.inr ⟨v, hv, hn, rfl⟩
+    | @name v hv hn => exact Or.inr ⟨v, hv, Or.inl ⟨hn, rfl⟩⟩
+    | @noneValue v hv hb => exact Or.inr ⟨v, hv, Or.inr (by simp [hb])⟩
 
 private theorem mem_validateInputFields (s : SchemaD) (t : TypeD) (e : Err) :
     e ∈ validateInputFields s t ↔ InputViol s t e := by
@@ -508,13 +521,16 @@ private theorem mem_validateInputFields (s : SchemaD) (t : TypeD) (e : Err) :
     · rcases (mem_step (·.name) pre a _ _ _ e).1 h with h | ⟨hm, h⟩ | h
       · obtain ⟨hn, rfl⟩ := (mem_checkValidName _ _).1 h; exact .name hat hn
       · simp only [List.mem_singleton] at h; subst h; exact .dup hat hm
-      · obtain ⟨hi, rfl⟩ := (mem_notInputErr _ _ _ _ _).1 h; exact .notInput hat hi
+      · rcases (mem_notInputErr _ _ _ _ _ _).1 h with ⟨hi, rfl⟩ | ⟨hi, hd, hb, rfl⟩
+        · exact .notInput hat hi
+        · exact .badDefault hat hi hd hb
   · intro h
     cases h with
     | empty hm => exact Or.inl (by simp [hm])
     | @name pre a hat hn => exact Or.inr ⟨pre, a, hat, (mem_step (·.name) pre a _ _ _ _).2 (Or.inl ((mem_checkValidName _ _).2 ⟨hn, rfl⟩))⟩
     | @dup pre a hat hm => exact Or.inr ⟨pre, a, hat, (mem_step (·.name) pre a _ _ _ _).2 (Or.inr (Or.inl ⟨hm, List.mem_singleton.2 rfl⟩))⟩
-    | @notInput pre a hat hi => exact Or.inr ⟨pre, a, hat, (mem_step (·.name) pre a _ _ _ _).2 (Or.inr (Or.inr ((mem_notInputErr _ _ _ _ _).2 ⟨hi, rfl⟩)))⟩
+    | @notInput pre a hat hi => exact Or.inr ⟨pre, a, hat, (mem_step (·.name) pre a _ _ _ _).2 (Or.inr (Or.inr ((mem_notInputErr _ _ _ _ _ _).2 (Or.inl ⟨hi, rfl⟩))))⟩
+    | @badDefault pre a hat hi hd hb => exact Or.inr ⟨pre, a, hat, (mem_step (·.name) pre a _ _ _ _).2 (Or.inr (Or.inr ((mem_notInputErr _ _ _ _ _ _).2 (Or.inr ⟨hi, hd, hb, rfl⟩))))⟩
 
 private theorem mem_typeBody (s : SchemaD) (rv : Bool) (t : TypeD) (e : Err) :
     e ∈ typeBodyWith Config.fixed s rv t ↔
@@ -526,7 +542,9 @@ private theorem mem_typeBody (s : SchemaD) (rv : Bool) (t : TypeD) (e : Err) :
   have h3 := mem_validateInputFields s t e
   unfold validateFields at h1; unfold validateInterfaces at h2; unfold validateInputFields at h3
   unfold typeBodyWith
-  cases hk : t.kind <;> simp [h1, h2, h3, mem_validateUnionMembers, mem_validateEnumValues]
+  have h4 := mem_validateEnumValues t e
+  unfold validateEnumValues at h4
+  cases hk : t.kind <;> simp [h1, h2, h3, h4, mem_validateUnionMembers]
 
 private theorem mem_validateType (s : SchemaD) (rv : Bool) (t : TypeD) (e : Err) :
     e ∈ validateType s rv t ↔ TypeViol s rv t e := by
@@ -579,7 +597,7 @@ private theorem mem_validateRootTypes (s : SchemaD) (e : Err) : e ∈ validateRo
     | @subscription n h1 h2 => exact Or.inr ⟨n, h1, h2, rfl⟩
 
 private theorem mem_validateDirectives (s : SchemaD) (e : Err) : e ∈ validateDirectives s ↔ DirViol s e := by
-  have ha := mem_validateArguments s .dirDupArg .dirArgNotInput
+  have ha := mem_validateArguments s .dirDupArg .dirArgNotInput .dirArgDefault
   unfold validateArguments at ha
   unfold validateDirectives validateDirectivesWith
   simp only [List.mem_flatMap, List.mem_append, mem_checkValidName, ha]
